@@ -19,8 +19,10 @@ import forced
 SUBSETS = [[], ["INVOKE"], ["SHUTDOWN"], ["INVOKE", "SHUTDOWN"]]
 
 
-def one(sid, rnd, nx, ni, with_dir, hold, invoke_pos, lat=0):
+def one(sid, rnd, nx, ni, with_dir, hold, invoke_pos, lat=0, dot=False):
     exts = ["e%d" % (i + 1) for i in range(nx)]
+    if dot and exts:
+        exts[0] = ".e0"     # every non-directory entry is an extension, whatever its name (first in directory order)
     files = list(exts) + ([("f1", "dir")] if with_dir else [])
     subs = {e: rnd.choice(SUBSETS) for e in exts}
     ints = {"i%d" % (i + 1): rnd.choice([[], ["INVOKE"]]) for i in range(ni)}
@@ -125,7 +127,7 @@ def scenarios(ctx):
                 n += 1
                 hold = rnd.randrange(0, 20) if r % 2 == 1 else None
                 out.append(one("c03-%03d" % n, rnd, nx, ni, with_dir=(r % 2 == 0), hold=hold, invoke_pos=rnd.randrange(0, 20),
-                               lat=30 if r % 3 == 2 else 0))
+                               lat=30 if r % 3 == 2 else 0, dot=(r % 4 == 3)))
     return out
 
 
